@@ -41,6 +41,10 @@ def units(ctx):
     us += [contract_unit(c, world_setup=cc.setup_mem)
            for c in cc.memorize_contracts()]
     us += pyvc_units(system.contracts(), 'C13', system.setup)
+    us += [contract_unit(c, world_setup=cc.setup_mem)
+           for c in cc.partition_contracts()]
+    us += [contract_unit(c, world_setup=cc.setup_merge)
+           for c in cc.merge_contracts()]
     # functions outside the deductive reach (ordering end-to-end, grouping,
     # join, distinct, memorize interleavings, ...): bounded model comparison
     us.append(bounded_unit(
